@@ -12,12 +12,12 @@ ee065f4:C02
 1046ee8:C02
 4eb59d7:C12,C02,C14
 12b19a6:C02,C12,C14
-9cbccb0:C11
+b475a6a+9cbccb0:C11
 5f18c17:C03
 b475a6a:C03
 01a5b3a:C15
 1e71232:C03
-4ab7118:C04
+b475a6a+4ab7118:C04
 5ed6555:C04
 f71b223:C04
 fabf450:C06
@@ -25,10 +25,10 @@ fa6515c:C13
 9e0b66c:C16
 f149e2e:C17
 4412a0c:C17
-554f99c:C18
-1a12fdf:C18
+b475a6a+554f99c:C18
+b475a6a+1a12fdf:C18
 cc1a74c:C18
-879059a:C18
+b475a6a+879059a:C18
 593f13e:C19
 ebca082:C11
 1c7ddb0:C11
@@ -42,7 +42,10 @@ fail=0
 for line in $MAP; do
   c="${line%%:*}"; checks="${line#*:}"
   if [ $# -gt 0 ]; then case " $* " in *" $c "*) ;; *) continue;; esac; fi
+  # "x+y": y can only be reverted after the later commit x (which rewrote the same lines) is reverted too
+  pre=""; case "$c" in *+*) pre="${c%%+*}"; c="${c##*+}";; esac
   subj="$(git -C /repo log -1 --format=%s "$c")"
+  if [ -n "$pre" ] && ! git -C /repo revert -n "$pre" >/dev/null 2>&1; then echo "$c REVERT-CONFLICT(pre $pre) $subj" | tee -a "$OUT"; git -C /repo reset -q --hard HEAD; fail=1; continue; fi
   if ! git -C /repo revert -n "$c" >/dev/null 2>&1; then echo "$c REVERT-CONFLICT $subj" | tee -a "$OUT"; git -C /repo reset -q --hard HEAD; fail=1; continue; fi
   tests="tests-pass"
   (cd /repo && go test -vet=off -count=1 ./... >/dev/null 2>&1) || tests="TESTS-FAIL"
